@@ -25,6 +25,7 @@ EXPLANATION = (
     "solution's smiles repeated Ratio times.  Completeness and arithmetic of the depth-first search over all vectors are NOT decided."
     ' The ban list may be computed from literals at import time: it is constant-folded (comprehensions, itertools.combinations*, str.format) before D3 is decided.'
     ' (D7) the both-side relabelling returns the given vector or its complete negation.'
+    ' (D8) the completion used by single_impute comes from SyntheticRuleMatcher.match() only; (D9) the ban list is canonicalised outside any handler that swallows the failure.'
 )
 ASSUMPTIONS = [
     "RDKit parses the table literals as the pipeline's own RDKit does (same interpreter)",
